@@ -45,13 +45,13 @@ ProcOne(t, cfg, st) ==
       \* ---- getZoneData (cloudflare.go:207-303)
       lookupFails == needLoad /\ t.zone \notin st.known /\ st.fail.kind = "zone"
       known1 == IF needLoad /\ ~lookupFails THEN st.known \cup {t.zone} ELSE st.known
-      zoneExists == t.zone = "z1"
-      np == Pages(st.recs)
+      zoneExists == t.zone \in {"z1", "z3"}       \* z3 exists too, but holds none of the requested names (one page of other records)
+      np == IF t.zone = "z1" THEN Pages(st.recs) ELSE 1
       \* pages are requested in order; the n-th list request of the call may fail
       failPage == IF needLoad /\ ~lookupFails /\ zoneExists /\ st.fail.kind = "page" /\ st.fail.n \in (st.listed + 1)..(st.listed + np)
                   THEN st.fail.n - st.listed ELSE 0
       pagesSeen == IF ~needLoad \/ lookupFails \/ ~zoneExists THEN 0 ELSE IF failPage > 0 THEN failPage - 1 ELSE np
-      data1 == IF needLoad /\ ~lookupFails /\ zoneExists
+      data1 == IF needLoad /\ ~lookupFails /\ t.zone = "z1"
                THEN st.data \cup {st.recs[i].name : i \in {j \in DOMAIN st.recs : st.recs[j].page <= pagesSeen}} ELSE st.data
       listed1 == IF needLoad /\ ~lookupFails /\ zoneExists THEN st.listed + (IF failPage > 0 THEN failPage ELSE np) ELSE st.listed
       loadErr == lookupFails \/ failPage > 0
